@@ -500,6 +500,7 @@ pub fn trait_model(rep: &mut Report, ix: &Index, roles: &[Role], item_kind: &str
     rep.unanalysable(&run.label(), &run.unsupported);
     let mut cubes: BTreeMap<(u32, u32, XDec), String> = BTreeMap::new();
     let mut memo: std::collections::HashMap<String, Option<XDec>> = Default::default();
+    let mut zero_seen: std::collections::HashSet<String> = Default::default();
     for p in &run.paths {
         // the zero-field shape is a separate path (accumulator empty): it carries no per-field decision
         if shape_path(&p.cond) { continue; }
@@ -516,6 +517,22 @@ pub fn trait_model(rep: &mut Report, ix: &Index, roles: &[Role], item_kind: &str
                 match &*inst {
                     Err(e) => { rep.fail(&format!("{rules_prefix}TP-parse"), &run.label(), "parse", e, &run.site(), json!({"state": cs})); None }
                     Ok(inst) => {
+                        // the same path printed for a type without fields (a summarised loop covers zero iterations too):
+                        // the variant structure must be intact and the body must be the neutral element
+                        let coll = if item_kind == "struct" { "fields" } else { "variants[*].fields" };
+                        if !p.cond.keys().any(|a| (a.starts_with("all-empty(") || a.starts_with("?len(")) && a.contains(coll)) {
+                            let zi = cache.get_sized(v, 2, &[coll.to_string()], &BTreeMap::new());
+                            match &*zi {
+                                Err(e) => rep.fail(&format!("{rules_prefix}TP-parse"), &run.label(), "parse-zero-fields", e, &run.site(), json!({"state": cs})),
+                                Ok(zinst) => {
+                                    if !zero_seen.contains(&zinst.text) {
+                                        zero_seen.insert(zinst.text.clone());
+                                        let d = analyse_instance(rep, &run, t, zinst, am, &format!("{cs} [no fields]"), rules_prefix);
+                                        rep.check(d == Some(XDec::Nothing), &format!("{rules_prefix}TP-zero-fields"), &run.label(), "neutral", &format!("for a type / variant without fields the {} body is not the neutral element (true / Equal / no feed / no assertion): {:?}", TRAITS[t], d.map(|x| x.show())), &run.site(), json!({"state": cs}));
+                                    }
+                                }
+                            }
+                        }
                         if let Some(d) = memo.get(&inst.text) { *d } else {
                             let d = analyse_instance(rep, &run, t, inst, am, &cs, rules_prefix);
                             memo.insert(inst.text.clone(), d);
